@@ -512,6 +512,17 @@ func finishCheck(id string, opts checkOpts, eng *Engine, t0 time.Time, replayDir
 			fmt.Printf("  obligation %s [%s] %s: %s\n", full, r.Class, r.Status, firstLines(r.Note, 1))
 		}
 	}
+	// bounded stand-ins (labelled bounded, never counted as proved): in-package model-based tests over
+	// an exhaustively enumerated small scope, run on the real code through an overlay
+	bounded := runBounded(eng, id, opts, replayDir)
+	for _, b := range bounded {
+		if b["failures"].(int) > 0 || b["error"] != nil {
+			violations++
+			fmt.Printf("VIOLATION property=%s replay=%s\n", id, b["replay"])
+			fmt.Printf("  bounded check %s: %v failing case(s): %v\n", b["file"], b["failures"], b["first_failure"])
+		}
+	}
+	boundedEvidence = bounded
 	wall := time.Since(t0).Seconds()
 	writeEvidence(id, opts, eng, reports, results, covers, wall, violations, problems)
 	nd := 0
@@ -623,7 +634,7 @@ func writeEvidence(id string, opts checkOpts, eng *Engine, reports []*FuncReport
 		"undischarged":             undischarged,
 		"single_backend":           single,
 		"samples":                  samples,
-		"bounded":                  []string{},
+		"bounded":                  boundedEvidence,
 		"slowest_obligations":      slowest,
 		"not_decided_by_proof":     meta.NotProved,
 	}
@@ -692,5 +703,68 @@ func sortedStrs(m map[string]bool) []string {
 		out = append(out, k)
 	}
 	sort.Strings(out)
+	return out
+}
+
+var boundedEvidence = []map[string]interface{}{}
+
+// runBounded runs /verif/bounded/<pkg>/<ID>_*_test.go against the real code.
+func runBounded(eng *Engine, id string, opts checkOpts, replayDir string) []map[string]interface{} {
+	out := []map[string]interface{}{}
+	if opts.onlyFunc != "" {
+		return out
+	}
+	files, _ := filepath.Glob(filepath.Join(verifDir(), "bounded", "*", id+"_*_test.go"))
+	sort.Strings(files)
+	for _, f := range files {
+		pkgName := filepath.Base(filepath.Dir(f))
+		pkgPath := ""
+		for path, p := range eng.pkgs {
+			if p.Pkg.Name() == pkgName {
+				pkgPath = path
+			}
+		}
+		if pkgPath == "" {
+			continue
+		}
+		src, err := os.ReadFile(f)
+		if err != nil {
+			continue
+		}
+		t1 := time.Now()
+		os.Setenv("VERIF_TIER", opts.tier)
+		res, _ := runTestOverlay(filepath.Join(outDir(), "work", id, "bounded"), pkgPath, string(src), "zz_gocv_bounded_test.go", "^TestGocvBounded")
+		b := map[string]interface{}{"file": filepath.Base(f), "package": pkgPath, "wall_s": time.Since(t1).Seconds(), "cases": 0, "failures": 0, "label": "bounded (not counted as proved)"}
+		sawSummary := false
+		for _, ln := range strings.Split(res, "\n") {
+			ln = strings.TrimSpace(ln)
+			switch {
+			case strings.HasPrefix(ln, "GOCV-BOUNDED"):
+				sawSummary = true
+				var cases, fails int
+				fmt.Sscanf(ln, "GOCV-BOUNDED cases=%d failures=%d", &cases, &fails)
+				b["cases"] = cases
+				b["failures"] = fails
+				if i := strings.Index(ln, "scope="); i >= 0 {
+					b["scope"] = strings.Trim(ln[i+6:], "\"")
+				}
+			case strings.HasPrefix(ln, "GOCV-FAIL") || strings.HasPrefix(ln, "GOCV-PANIC"):
+				if b["first_failure"] == nil {
+					b["first_failure"] = ln
+				}
+			}
+		}
+		if !sawSummary {
+			b["error"] = "bounded test did not complete: " + firstLines(res, 6)
+			b["failures"] = 1
+			b["first_failure"] = b["error"]
+		}
+		if b["failures"].(int) > 0 {
+			rp := filepath.Join(replayDir, "bounded_"+strings.TrimSuffix(filepath.Base(f), ".go")+".txt")
+			os.WriteFile(rp, []byte("bounded check "+f+" (run against the real code through an overlay)\n\n"+res), 0o644)
+			b["replay"] = rp
+		}
+		out = append(out, b)
+	}
 	return out
 }
